@@ -127,4 +127,14 @@ META = {
     design_ref='DESIGN.md 6/C14',
     note='All timing rules are necessary conditions with conservative stamps (no alarm from scheduling noise); hasher laws are sampled (seeded random bytes), not exhaustive.',
     technique='TLC model checking of the key repository + trace validation of timed concurrent histories against pairwise necessary conditions in TLA+'),
+ 'C18': dict(
+    text='RequestReply.tla models the listener goroutine (select between ctx.Done and notifications, filter by operation id, reply channel of capacity 1, clean-up) against callers '
+         'that drain, read one reply or never read; TLC checks OnlyOwnReplies, FinishedAtMostOnce and the temporal property "context done ~> channel closed and hook ran once" under '
+         'fairness; the legacy blocking-send design is rejected. A real PubSubBackend/CommandBus/CommandProcessor stack on GoChannel is driven with 1..32 concurrent requests on a '
+         'shared reply topic, handlers failing 0-2 deliveries (redelivery => several replies), AckCommandErrors on/off, listener time-outs, a failing reply publisher, and caller '
+         'behaviours incl. abandoning the channel; the trace is validated: replies only for the own command with the handler outcome, command settled as configured and only after '
+         'the reply was published, every ended request gets its channel closed and the hook exactly once, no listener goroutine left',
+    design_ref='DESIGN.md 6/C18',
+    note='Replies are attributed via a caller id in command/result/metadata (the operation id is generated inside SendWithReplies).',
+    technique='TLC model checking (liveness) of the listener + trace validation of concurrent request/reply histories'),
 }
